@@ -16,7 +16,21 @@ import (
 func c01One(c *core.Ctx, cs srcCase) {
 	setBlock(&cs)
 	v := parseVer(cs.Ver)
-	res := drive.Parse(cs.Src, v, !cs.NoCB)
+	var res drive.Result
+	var wrote, prot bool
+	if cs.Aux == "plain" {
+		// further configurations of an input already parsed on a write-protected mapping
+		res = drive.Parse(cs.Src, v, !cs.NoCB)
+	} else {
+		res, wrote, prot = drive.ParseProtected(cs.Src, v, !cs.NoCB)
+	}
+	if prot {
+		c.Stat("parses_on_write_protected_input", 1)
+	}
+	if wrote {
+		c.Report("the parser writes into the caller's input buffer (store into a write-protected copy): "+res.PanicLoc, mkWhat("%q, version %s, callback %v", cs.Src, cs.Ver, !cs.NoCB), cs)
+		return
+	}
 	c.Max("max_steps_per_input_byte_x100", int64(res.Steps*100/(len(cs.Src)+1)))
 	cfg := cs.Ver
 	_ = cfg
@@ -99,9 +113,12 @@ func c01Run(c *core.Ctx) {
 	}
 	cfgs := c01Configs(false)
 	forBytes(c, ebytes.Sigma, nFull, ebytes.Contexts, func(src string, k int) {
-		for _, cf := range cfgs {
+		for ci, cf := range cfgs {
 			cs := mkCase(src, cf.v, "E-bytes full alphabet")
 			cs.NoCB = cf.nocb
+			if ci != 0 && ci != 2 { // 7.4 and 5.6 with callback run write-protected
+				cs.Aux = "plain"
+			}
 			c01One(c, cs)
 			c.Stat("ebytes_parses", 1)
 		}
@@ -138,6 +155,7 @@ func c01Run(c *core.Ctx) {
 		for _, cf := range c01Configs(true) {
 			cs := mkCase(src, cf.v, "E-bytes core alphabet, all versions")
 			cs.NoCB = cf.nocb
+			cs.Aux = "plain"
 			c01One(c, cs)
 			c.Stat("ebytes_parses", 1)
 		}
@@ -272,10 +290,10 @@ func c01Ladder(c *core.Ctx) {
 func init() {
 	register(&core.Check{
 		Prop: "C01", Level: "exploration", Exhaust: true, QuickSecs: 400, ThorSecs: 3000,
-		Rule: "A: every string of <= 3 symbols over the 67-symbol alphabet (all byte literals of scanner.rl + class representatives + mode-switching fragments) from each of 15 start contexts (one per scanner machine) under 7.4/5.6/7.2 x {callback, nil}; thorough: one more ring (4 symbols) under 7.4; <= 4 (thorough 5) symbols over the 28-symbol core alphabet; <= 2 core symbols under all 12 versions x {callback, nil}. " +
+		Rule: "A: every string of <= 3 symbols over the 70-symbol alphabet (all byte literals of scanner.rl + class representatives + mode-switching fragments + hex, binary and overflowing number forms) from each of 15 start contexts (one per scanner machine) under 7.4/5.6/7.2 x {callback, nil}; thorough: one more ring (4 symbols) under 7.4; <= 4 (thorough 5) symbols over the 28-symbol core alphabet; <= 2 core symbols under all 12 versions x {callback, nil}. " +
 			"B: every byte-prefix of every rule-level (thorough: 2-path) corpus program of both grammars in three line-terminator layouts and of every special, with and without callback; grammar-action error programs under all versions x {callback, nil}. " +
 			"C: every (LALR state, terminal) cell of both automata — access sentence + terminal + tail — i.e. every configuration in which yacc error recovery can start. D: scaling ladder (64 vs 512 copies of 19 units): steps must grow linearly. " +
-			"Oracle: no panic escapes Parse; scanner restarts + Lex calls <= 64+16*len (deterministic hang detector); input buffer unchanged; err == nil. non-trivial/distinct = distinct input byte strings",
+			"Oracle: no panic escapes Parse; scanner restarts + Lex calls <= 64+16*len (deterministic hang detector); input buffer unchanged — the parse runs on a write-protected mapping, so any store into the input faults, also one that rewrites the same bytes; err == nil. non-trivial/distinct = distinct input byte strings",
 		Assume: []string{"a scanner that makes progress consumes at least one byte per loop restart (measured maximum on valid code is reported as max_steps_per_input_byte_x100)"},
 		Run:    c01Run,
 		Replay: replaySrc(c01One),
